@@ -246,6 +246,14 @@ def shared_run(tier='quick'):
     return _pack('gvc.shared', [r], t0, samples=[dict(obligation='no state reachable from two threads: statics outside thread_local!, process-global mutators, manual Send/Sync, unsafe blocks', items_checked=r['checked'])])
 
 
+def shadow_run(tier='quick'):
+    from . import analyses as A
+    t0 = time.time()
+    fns, table, comb = collect()
+    r = A.shadow_check(fns)
+    return _pack('gvc.shadow', [r], t0, samples=[dict(obligation='no literal alternative of an ordered choice is shadowed by an earlier prefix', alts_checked=r['checked'])])
+
+
 def pptotal_run(tier='quick'):
     from . import analyses as A
     t0 = time.time()
